@@ -23,7 +23,9 @@
       - the allocator interface       [OInitHooks], [OMalloc], [OFree];
       - the caller's own field stores [OSetChildRaw], [OSetLinksRaw] and the probes [OChain], [OChildDepth];
       - [ODuplicate] (its list model is a relation: Properties_C11.v; [C07_duplicate_continues]);
-      - [OArrayForEach] (covered on its own by [C06_queries_iteration]);
+      - [OArrayForEach] has no proof-level CALL (it is the caller's loop over child / next): it is translated
+        to "no call" with the result kind [KEach a], whose encoding runs the loop
+        ([CoreOps.array_for_each], shown to visit the model's children list by [C06_queries_iteration]);
       - string arguments [SKeyOf k] / [SValOf k] when the view cannot read the field (NULL or dead handle).
     Calls on reference containers, foreign items etc. ARE translated; they are rejected (or not) by
     the ownership checker [pre_ok3b], not by the translation.
@@ -67,7 +69,8 @@ Inductive kind : Type :=
 | KFlag      (* cJSON_bool *)
 | KUnit      (* void *)
 | KInt | KDbl
-| KStr.      (* a [char *] the caller then reads as a C string *)
+| KStr       (* a [char *] the caller then reads as a C string *)
+| KEach (a : ptr).   (* no call: the caller iterates over [a] (cJSON_ArrayForEach) and reports the types met *)
 
 Record trans : Type := mkT {
   t_pre : list bytes;          (* caller strings declared before the call, in order *)
@@ -178,7 +181,7 @@ Definition tr (V : view) (st : CO.state) (o : CO.op) : option trans :=
   | CO.OHasObjectItem ob s => T1 V st s KFlag (fun p => OHasObjectItem (I ob) p)
   | CO.OGetStringValue i => T0 st KStr (OGetStringValue (I i))
   | CO.OGetNumberValue i => T0 st KDbl (OGetNumberValue (I i))
-  | CO.OArrayForEach _ => None
+  | CO.OArrayForEach a => Some (mkT [] st None (KEach (I a)))
   | CO.OSetNumberValue i d => T0 st KDbl (OSetNumberValue (I i) d)
   | CO.OSetIntValue i n => T0 st KInt (OSetIntValue (I i) n)
   | CO.OSetValuestring i s => T1 V st s KStr (fun p => OSetValuestring (I i) p)
@@ -202,6 +205,7 @@ Definition res_dbl3 (r : res3) : dbl := match r with RDbl d => d | _ => dzero en
 Definition shape (k : kind) (r : res3) : Prop :=
   match k, r with
   | KPush, R (RPtr _) | KFlag, R (RBool _) | KUnit, R RUnit | KInt, R (RInt _) | KDbl, RDbl _ | KStr, R (RPtr _) => True
+  | KEach _, _ => True
   | _, _ => False
   end.
 
@@ -218,6 +222,7 @@ Definition finish (k : kind) (st : CO.state) (r : res3) : M (CO.result * CO.stat
   | KInt => ret (CO.RInt (res_int3 r), st)
   | KDbl => ret (CO.RDbl (res_dbl3 r), st)
   | KStr => s <~ CO.opt_cstr (res_ptr3 r) ;; ret (CO.RStr s, st)
+  | KEach a => l <~ CO.array_for_each a ;; ret (CO.RInts l, st)
   end.
 
 (** the result for the kinds that need no further read *)
@@ -229,8 +234,11 @@ Definition enc (k : kind) (r : res3) : CO.result :=
   | KInt => CO.RInt (res_int3 r)
   | KDbl => CO.RDbl (res_dbl3 r)
   | KStr => CO.RStr None
+  | KEach _ => CO.RInts []
   end.
-Lemma finish_pure k st r h : k <> KStr -> finish k st r h = Ret ((enc k r, new_pools k st r), h).
+(** the kinds whose result needs no further read of the heap *)
+Definition pure_kind (k : kind) : Prop := match k with KStr | KEach _ => False | _ => True end.
+Lemma finish_pure k st r h : pure_kind k -> finish k st r h = Ret ((enc k r, new_pools k st r), h).
 Proof. by destruct k. Qed.
 
 (** the caller declares strings *)
@@ -397,6 +405,8 @@ Proof.
     rewrite (bindM_Ret _ _ _ _ _ E1). cbn [fst snd].
     unfold run_tr. cbn [t_pre t_main t_kind t_st run_main]. rewrite (bindM_Ret _ _ _ _ _ E2).
     revert h1 E1 E2. same_call.
+  - (* the caller's loop *)
+    injection E as <-. reflexivity.
   - (* the caller declares a string *)
     injection E as <-. destruct HV as (Hn & _). rewrite Hn. reflexivity.
 Qed.
@@ -451,7 +461,7 @@ Corollary run_op_commutes_Err V st o t h e :
 Proof. intros HV E Hr. rewrite (run_op_commutes V st o t h HV E). unfold bindM at 1. by rewrite Hr. Qed.
 
 Corollary run_op_commutes_Ret V st o t h rs h' :
-  view_ok V h -> tr V st o = Some t -> t_kind t <> KStr -> run_ops3 (tr_ops t) h = Ret (rs, h') ->
+  view_ok V h -> tr V st o = Some t -> pure_kind (t_kind t) -> run_ops3 (tr_ops t) h = Ret (rs, h') ->
   CO.run_op nv st o h =
   Ret ((enc (t_kind t) (main_res t rs), sweep_st h' (new_pools (t_kind t) (t_st t) (main_res t rs))), h').
 Proof.
@@ -463,6 +473,15 @@ Corollary run_op_commutes_Ret_str V st o t h rs h' s :
   view_ok V h -> tr V st o = Some t -> t_kind t = KStr -> run_ops3 (tr_ops t) h = Ret (rs, h') ->
   CO.opt_cstr (res_ptr3 (main_res t rs)) h' = Ret (s, h') ->
   CO.run_op nv st o h = Ret ((CO.RStr s, sweep_st h' (t_st t)), h').
+Proof.
+  intros HV E Hk Hr Hs. rewrite (run_op_commutes V st o t h HV E). rewrite (bindM_Ret _ _ _ _ _ Hr).
+  rewrite Hk. cbn [finish]. rewrite bindM_assoc. by rewrite (bindM_Ret _ _ _ _ _ Hs).
+Qed.
+
+Corollary run_op_commutes_Ret_each V st o t h rs h' a l :
+  view_ok V h -> tr V st o = Some t -> t_kind t = KEach a -> run_ops3 (tr_ops t) h = Ret (rs, h') ->
+  CO.array_for_each a h' = Ret (l, h') ->
+  CO.run_op nv st o h = Ret ((CO.RInts l, sweep_st h' (t_st t)), h').
 Proof.
   intros HV E Hk Hr Hs. rewrite (run_op_commutes V st o t h HV E). rewrite (bindM_Ret _ _ _ _ _ Hr).
   rewrite Hk. cbn [finish]. rewrite bindM_assoc. by rewrite (bindM_Ret _ _ _ _ _ Hs).
